@@ -31,6 +31,14 @@ def uci_handlers(p):
     for n, fid, nm in loop.calls():
         if nm.startswith('engine::Uci::') and nm.endswith('_command') and fid in p.funcs:
             out[short(nm)[:-len('_command')]] = p.funcs[fid]
+    # ... or entered in a table of (name, member function) pairs that loop() looks the token up in
+    for n in loop.all_nodes():
+        r = n.get('ref') or {}
+        if n['k'] == 'DeclRefExpr' and r.get('k') == 'Method' and r.get('n', '').startswith('engine::Uci::') and \
+                r['n'].endswith('_command') and r.get('fid') in p.funcs:
+            par = loop.parent(n)
+            if par is not None and par['k'] == 'UnaryOperator' and par.get('op') == '&':
+                out.setdefault(short(r['n'])[:-len('_command')], p.funcs[r['fid']])
     return loop, out
 
 
